@@ -65,6 +65,12 @@ CLAIMED = {
             "ValueError and valid ones do not, that equal arguments give identical terms, and that add_linspace_outliers "
             "touches exactly the evenly spaced rows",
             "4.C18"),
+    "C17": ("StatThresholdAnomaliser over a stub change detector returning any changepoint list of symbolic integers and a "
+            "statistic returning one free real per segment, with symbolic bounds: on every path the reported intervals are "
+            "exactly the segments whose flag (stat<lower or stat>upper) the path condition implies (z3), adjacent flagged "
+            "segments stay separate, the user's detector stays unfitted; same with real PELT / MovingWindow / SBS on "
+            "table scorers inside (product run); lower>upper raises ValueError",
+            "4.C17"),
 }
 PENDING = {}
 TITLES = {}
